@@ -33,7 +33,16 @@ def plan_history(S, hist, mx, rng):
                 req = S.reservation(cfg["cur"], cfg["amount"], tok)
                 if out == "ok":
                     r = nxt[0]; nxt[0] = nxt[0] % 9998 + 1
-                    sc.exchange(req, [S.intermediate(), S.status_info({0x27: 0, 0x87: r}), S.completion()])
+                    shape = rng.randrange(4)
+                    if shape == 0:
+                        replies = [S.intermediate(), S.status_info({0x27: 0, 0x87: r}), S.completion()]
+                    elif shape == 1:        # the receipt number, then a further status information without one: the number stands
+                        replies = [S.status_info({0x27: 0, 0x87: r}), S.intermediate(), S.status_info({0x27: 0}), S.completion()]
+                    elif shape == 2:        # two numbers: the LAST one is the reservation's
+                        replies = [S.status_info({0x27: 0, 0x87: (r % 9998) + 1}), S.status_info({0x27: 0, 0x87: r}), S.completion()]
+                    else:                   # none, then the number
+                        replies = [S.status_info({0x27: 0}), S.status_info({0x27: 0, 0x87: r}), S.intermediate(), S.completion()]
+                    sc.exchange(req, replies)
                     open_[tok] = r
                     sc.exp_results.append("Ok")
                 elif out == "abort":
